@@ -162,6 +162,82 @@ def gen_cov(ctx):
                "batch": rng2.choice([2, 3]), "rounds": rng2.randint(3, 5), "seed": rng2.randrange(10 ** 6),
                "eps": rng2.choice([0.05, 0.2]), "noise_var": rng2.choice([0.01, 0.0625]),
                "contraction": rng2.choice([1.0, 8.0, 32.0]), "model": {"kind": "plain", "family": "shrink"}}
+    yield from gen_cov_extra(ctx, random.Random(rng2.getrandbits(64)))
+
+
+# ------------------------------------------------------------------------------------------------
+# two design spaces over the same points in one process (locate_points must answer for ITS space)
+# ------------------------------------------------------------------------------------------------
+_BASE_PTS = [[0.0, 0.125], [0.25, 0.5], [0.5, 0.25], [0.75, 0.875], [1.0, 0.0], [0.375, 0.625]]
+_BASE_Y2 = [[0.0, 1.0], [0.5, 0.5], [1.0, 0.0], [0.75, 0.75], [0.25, 0.25], [-0.5, 0.875]]
+
+
+def _run_pair(alg, X, Y, force, seed, rounds=4, batch=2):
+    return {"kind": "run", "alg": alg, "X": X, "Y": Y, "cone": "orthant2", "geom": {"pd": 0.0, "pc": 1.0},
+            "batch": batch, "rounds": rounds, "seed": seed, "eps": 0.05, "noise_var": 0.01, "contraction": 1.0,
+            "force": force}
+
+
+def _twospace_fixed():
+    """fixed cases, every run: space B holds the points of space A at other indices (extra leading point,
+    rotation, reversal, sub-sample) and its active rows form a byte-identical query array"""
+    P, Y = _BASE_PTS, _BASE_Y2
+    out = []
+    for alg in ("VOGP", "EpsilonPAL"):
+        # B = [extra] + A, design 0 of B inactive: active rows of B == all rows of A, indices shifted by one
+        extra, ey = [0.875, 0.375], [0.125, -0.25]
+        A4, Y4 = P[:4], Y[:4]
+        out.append({"kind": "twospace", "shape": "extra-first", "widths": [3.0, 1.0, 4.0, 2.0, 6.0, 5.0],
+                    "perm": [4, 0, 1, 2, 3], "P": P[:5], "queries": [[0, 1, 2, 3], [1, 2], [3], [0, 1, 2, 3]], "q": 2,
+                    "runs": [_run_pair(alg, A4, Y4, None, 11),
+                             _run_pair(alg, [extra] + A4, [ey] + Y4, {"S": [1, 2, 3, 4], "P": [], "U": []}, 12),
+                             _run_pair(alg, A4, Y4, None, 13)]})
+        # B = rotation of A by two, complementary halves active: the same two rows, indices 0,1 vs 2,3
+        rot = [2, 3, 0, 1]
+        out.append({"kind": "twospace", "shape": "rotation", "widths": [1.0, 5.0, 2.0, 7.0, 3.0, 4.0],
+                    "perm": rot, "P": P[:4], "queries": [[0, 1], [0, 1, 2, 3], [2, 3], [1]], "q": 1,
+                    "runs": [_run_pair(alg, A4, Y4, {"S": [0, 1], "P": [], "U": []}, 21, batch=1),
+                             _run_pair(alg, [A4[i] for i in rot], [Y4[i] for i in rot],
+                                       {"S": [2, 3], "P": [], "U": []}, 22, batch=1)]})
+        # B = reversed sub-sample of A
+        sub = [5, 3, 1]
+        out.append({"kind": "twospace", "shape": "reversed-subset", "widths": [2.0, 9.0, 1.0, 4.0, 3.0, 6.0],
+                    "perm": sub, "P": P, "queries": [[1, 3, 5], [5, 3, 1], [3], [1, 5]], "q": 2,
+                    "runs": [_run_pair(alg, P, Y, {"S": [1, 3, 5], "P": [], "U": []}, 31),
+                             _run_pair(alg, [P[i] for i in [1, 3, 5, 0]], [Y[i] for i in [1, 3, 5, 0]],
+                                       {"S": [0, 1, 2], "P": [], "U": []}, 32),
+                             _run_pair(alg, [P[i] for i in [0, 1, 3, 5]], [Y[i] for i in [0, 1, 3, 5]],
+                                       {"S": [1, 2, 3], "P": [], "U": []}, 33)]})
+    return out
+
+
+def _alias_fixed():
+    """fixed cases, every run: first batch into an empty model, first batch after clear_data(), later batches;
+    numpy float64 C-contiguous inputs and torch tensors; the caller's buffers are overwritten afterwards"""
+    out = []
+    for model in ("independent", "correlated", "modellist", "empirical"):
+        for inp in ("numpy", "torch"):
+            if model == "empirical" and inp == "torch":
+                continue
+            out.append({"kind": "alias", "model": model, "input": inp, "d": 2, "m": 2, "fill": "nan" if inp == "numpy" else "const",
+                        "ops": [["add", 2], ["add", 1], ["clear"], ["add", 3], ["add", 2]], "seed": 5})
+            out.append({"kind": "alias", "model": model, "input": inp, "d": 1, "m": 3, "fill": "const",
+                        "ops": [["add", 1], ["clear"], ["add", 1], ["add", 4]], "seed": 6})
+    return out
+
+
+def gen_cov_extra(ctx, rng):
+    if ctx.worker == 0:
+        yield from _twospace_fixed()
+        yield from _alias_fixed()
+    for _ in range(ctx.n(0, 3000)):
+        model = rng.choice(["independent", "correlated", "modellist", "empirical"])
+        ops = []
+        for _k in range(rng.randint(1, 6)):
+            ops.append(["clear"] if rng.random() < 0.2 else ["add", rng.randint(1, 4)])
+        yield {"kind": "alias", "model": model, "input": "numpy" if model == "empirical" else rng.choice(["numpy", "torch"]),
+               "d": rng.randint(1, 3), "m": rng.randint(1, 3), "fill": rng.choice(["nan", "const"]), "ops": ops,
+               "seed": rng.randrange(10 ** 6)}
 
 
 def _rand_costs_mixed(rng, m):
@@ -321,10 +397,206 @@ def _run_covrun(ctx, case):
         c07._build, c07._dump = real_build, real_dump
 
 
+def _run_twospace(ctx, case):
+    """(1) direct law of `locate_points` on two FixedPointsDesignSpace objects over the same points at different
+    indices, queried alternately with byte-identical arrays; the real MaxDiagonalAcquisition / optimiser on each
+    against the own diagonal table.  (2) two or three real algorithm objects in the same process whose active rows
+    form byte-identical query arrays at different design indices, through `c07.run_alg` (own-table law)."""
+    from vopy.acquisition.acquisition import MaxDiagonalAcquisition, optimize_acqf_discrete
+    from vopy.design_space import FixedPointsDesignSpace
+
+    from harness.props import c07
+
+    ctx.count("cov_twospace_" + case["shape"])
+    P = np.array(case["P"], dtype=float)
+    perm = case["perm"]
+    m = 2
+    spaces = []
+    for pts, ids in ((P, list(range(len(P)))), (P[perm], list(perm))):
+        ds = FixedPointsDesignSpace(pts.copy(), m, confidence_type="hyperrectangle")
+        for k, r in enumerate(ds.confidence_regions):   # distinct diagonals, attached to the DESIGN (not the slot)
+            w = case["widths"][ids[k]]
+            r.lower, r.upper = np.zeros(m), np.array([w, 0.0])
+        spaces.append((ds, pts, ids))
+    try:
+        for rows in case["queries"]:
+            for which, (ds, pts, ids) in enumerate(spaces):   # alternately, identical bytes
+                rows_here = [r for r in rows if r in ids]
+                if len(rows_here) != len(rows):
+                    continue
+                x = P[rows].copy()
+                idx = [int(i) for i in ds.locate_points(x)]
+                if len(idx) != len(x) or any(i < 0 or i >= len(pts) or not np.array_equal(pts[i], x[k])
+                                             for k, i in enumerate(idx)):
+                    _viol(ctx, "locate-points-wrong-design", "DiscreteDesignSpace.locate_points returned an index whose "
+                          "point in THIS design space is not the queried point (another space over the same points "
+                          "at different indices was queried before with the same array)", case,
+                          detail={"space": which, "queried_rows": rows, "returned": idx,
+                                  "expected": [ids.index(r) for r in rows]})
+                acq = MaxDiagonalAcquisition(ds)
+                own = [float(case["widths"][r]) for r in rows]
+                seen = [float(v) for v in np.asarray(acq(x), dtype=float).reshape(-1)]
+                if seen != own:
+                    _viol(ctx, "acq-value", "MaxDiagonalAcquisition: value is not the diagonal of the queried design's "
+                          "region in this design space", case, kind="F", detail={"space": which, "seen": seen, "own": own})
+                cand, _ = optimize_acqf_discrete(acq, case["q"], x)
+                cand = np.asarray(cand, dtype=float).reshape(-1, x.shape[1])
+                pos = c07._positions([tuple(r) for r in x.tolist()], [tuple(r) for r in cand.tolist()])
+                spec = "fail" if None in pos else ctx.ask("specd", core.qvec(own), str(min(case["q"], len(rows))),
+                                                          core.nats(pos), core.qvec([own[p] for p in pos]))
+                if spec != "ok":
+                    _viol(ctx, "not-maximiser-among-active", "the batch chosen with the real MaxDiagonalAcquisition over "
+                          "this design space is not the queried designs of largest region diagonal in non-increasing "
+                          "order", case, detail={"space": which, "queried_rows": rows, "diagonals": own,
+                                                 "picked": [rows[p] if p is not None else None for p in pos]})
+    except Exception as e:
+        _viol(ctx, "twospace-crash:" + core.exc_key(e), f"two-design-space stream raised {type(e).__name__}: {e}", case)
+    ctx.case_done(case, True, canon=case)
+    for sub in case.get("runs", []):
+        c07.run_alg(ctx, sub)
+
+
+def _stored(model):
+    from harness.props import c07
+
+    return c07._dump(model)
+
+
+def _run_alias(ctx, case):
+    """`add_sample` must COPY: after the caller overwrites the arrays it passed in, the model's data must still
+    be the old data followed by the values that were passed at the time of the call."""
+    import torch
+    from vopy.models.empirical_mean_var import EmpiricalMeanVarModel
+    from vopy.models.gpytorch import (CorrelatedExactGPyTorchModel, GPyTorchModelListExactModel,
+                                      IndependentExactGPyTorchModel)
+
+    kind, d, m = case["model"], case["d"], case["m"]
+    ctx.count("cov_alias_" + kind + "_" + case["input"])
+    rs = np.random.RandomState(case["seed"] % (2 ** 32))
+    ndes = 5
+    try:
+        if kind == "independent":
+            model = IndependentExactGPyTorchModel(d, m, 0.01)
+        elif kind == "correlated":
+            model = CorrelatedExactGPyTorchModel(d, m, 0.01)
+        elif kind == "modellist":
+            model = GPyTorchModelListExactModel(d, m, 0.01)
+        else:
+            model = EmpiricalMeanVarModel(d, m, 0.01, ndes)
+        # own log
+        if kind == "modellist":
+            logX, logY = [np.empty((0, d)) for _ in range(m)], [np.empty(0) for _ in range(m)]
+        elif kind == "empirical":
+            logS = [np.empty((0, m)) for _ in range(ndes)]
+        else:
+            logX, logY = np.empty((0, d)), np.empty((0, m))
+        first_after_empty = True
+        for step, op in enumerate(case["ops"]):
+            if op[0] == "clear":
+                model.clear_data()
+                if kind == "modellist":
+                    logX, logY = [np.empty((0, d)) for _ in range(m)], [np.empty(0) for _ in range(m)]
+                elif kind == "empirical":
+                    logS = [np.empty((0, m)) for _ in range(ndes)]
+                else:
+                    logX, logY = np.empty((0, d)), np.empty((0, m))
+                first_after_empty = True
+                continue
+            k = int(op[1])
+            X = np.ascontiguousarray(rs.randint(-8, 9, size=(k, d)) / 8.0, dtype=np.float64)
+            dims = idx = None
+            if kind == "modellist":
+                Y = np.ascontiguousarray(rs.randint(-16, 17, size=k) / 8.0, dtype=np.float64)
+                dims = [int(t) for t in rs.randint(0, m, size=k)]
+            else:
+                Y = np.ascontiguousarray(rs.randint(-16, 17, size=(k, m)) / 8.0, dtype=np.float64)
+                if kind == "empirical":
+                    idx = [int(t) for t in rs.randint(0, ndes, size=k)]
+            X0, Y0 = X.copy(), Y.copy()
+            if case["input"] == "torch":
+                Xp, Yp = torch.tensor(X0, dtype=torch.float64), torch.tensor(Y0, dtype=torch.float64)
+            else:
+                Xp, Yp = X, Y
+            # expected data after this call: old ++ what was passed (Lean store models on the finite values)
+            if kind == "modellist":
+                model.add_sample(Xp, Yp, dims)
+                exp = ctx.ask("listadd", str(d), str(m), core.qmats(logX), core.qmat(logY), core.qmat(X0), core.qvec(Y0),
+                              core.nats(dims))
+                for j in range(m):
+                    sel = [t for t in range(k) if dims[t] == j]
+                    logX[j] = np.concatenate([logX[j], X0[sel].reshape(-1, d)])
+                    logY[j] = np.concatenate([logY[j], Y0[sel]])
+                own = core.qmats(logX) + " " + core.qmat(logY)
+            elif kind == "empirical":
+                model.add_sample(idx, Yp)
+                exp = ctx.ask("empadd", str(ndes), core.qmats(logS), core.nats(idx), core.qmat(Y0))
+                for t, i in enumerate(idx):
+                    logS[i] = np.concatenate([logS[i], Y0[t].reshape(1, m)])
+                own = core.qmats(logS)
+            else:
+                model.add_sample(Xp, Yp)
+                exp = ctx.ask("gpadd", str(d), core.qmat(logX), core.qmat(logY), core.qmat(X0), core.qmat(Y0))
+                logX, logY = np.concatenate([logX, X0]), np.concatenate([logY, Y0])
+                own = core.qmat(logX) + " " + core.qmat(logY)
+            if exp != own:
+                _viol(ctx, "alias-model", "Lean store model disagrees with the harness's own log", case, kind="F",
+                      detail={"step": step})
+            # ---- (F) no shared memory between the stored data and the caller's arrays
+            shared = False
+            st = [model.train_inputs, model.train_targets] if kind != "empirical" else list(model.design_samples)
+            flat = []
+            for t in st:
+                flat.extend(t if isinstance(t, (list, tuple)) else [t])
+            for t in flat:
+                if isinstance(t, torch.Tensor):
+                    if case["input"] == "torch":
+                        shared |= any(t.numel() and b.numel() and
+                                      t.untyped_storage().data_ptr() == b.untyped_storage().data_ptr() for b in (Xp, Yp))
+                    else:
+                        shared |= bool(t.numel()) and any(np.shares_memory(t.detach().numpy(), b) for b in (X, Y))
+                elif isinstance(t, np.ndarray) and case["input"] == "numpy":
+                    shared |= any(np.shares_memory(t, b) for b in (X, Y))
+            if shared:
+                _viol(ctx, "data-shares-caller-buffer", f"{kind}: after add_sample the stored data share memory with the "
+                      "arrays the caller passed in", case, kind="F",
+                      detail={"step": step, "first_batch_into_empty_model": first_after_empty})
+            # ---- the caller re-uses its buffers
+            fillv = float("nan") if case["fill"] == "nan" else -777.25
+            if case["input"] == "torch":
+                Xp.fill_(fillv)
+                Yp.fill_(fillv)
+            else:
+                X.fill(fillv)
+                Y.fill(fillv)
+            # ---- (R) the stored data are still the old data ++ the values passed at the time of the call
+            now = _stored(model)
+            if kind == "modellist":
+                ok = all(np.array_equal(now["X"][j], logX[j]) and np.array_equal(now["Y"][j], logY[j]) for j in range(m))
+            elif kind == "empirical":
+                ok = all(np.array_equal(now["samples"][i], logS[i]) for i in range(ndes))
+            else:
+                ok = np.array_equal(now["X"], logX) and np.array_equal(now["Y"], logY)
+            if not ok:
+                _viol(ctx, "data-aliases-caller-buffer", f"{kind}: after the caller overwrote the arrays it had passed to "
+                      "add_sample, the model's stored data are no longer the old data followed by exactly the passed "
+                      "(design, observation) pairs", case,
+                      detail={"step": step, "first_batch_into_empty_model": first_after_empty, "input": case["input"],
+                              "passed_X": X0.tolist(), "passed_Y": Y0.tolist()})
+                break
+            first_after_empty = False
+    except Exception as e:
+        _viol(ctx, "alias-crash:" + core.exc_key(e), f"model-data stream raised {type(e).__name__}: {e}", case)
+    ctx.case_done(case, any(o[0] == "add" for o in case["ops"]), canon=case)
+
+
 def run_cov(ctx, case):
     if case["kind"] == "acq":
         _run_acq(ctx, case)
     elif case["kind"] == "covrun":
         _run_covrun(ctx, case)
+    elif case["kind"] == "twospace":
+        _run_twospace(ctx, case)
+    elif case["kind"] == "alias":
+        _run_alias(ctx, case)
     else:
         raise ValueError(f"unknown case kind {case['kind']!r}")
